@@ -251,8 +251,9 @@ func addLeafCountKeyToSecondLevel(db dbm.DB, kvs []*types.KeyValue, batch dbm.Ba
 }
 
 // retainedRootHashes returns the root hashes of the states a pruning run at curHeight has to keep
-// readable: every root recorded at a height >= curHeight-PruneHeight and the newest root recorded
-// below that height (the state of the lowest kept height when that block did not change the state).
+// readable: every root recorded at a height >= curHeight-PruneHeight and the newest roots recorded
+// below that height (the state of the lowest kept height when that block did not change the state;
+// one more interval of records, because the newest one may stem from an abandoned branch).
 // Root records are stored under the bare tree hash, without the height prefix every other node key
 // carries, so a state that occurs again at a later height shares its root record with the old
 // version: deleting the old version's parent hashes must not delete such a record.
@@ -273,10 +274,14 @@ func retainedRootHashes(db dbm.DB, curHeight int64, treeCfg *TreeConfig) map[str
 			continue
 		}
 		if height < lowest {
-			if below >= 0 && height != below {
+			if below < 0 {
+				below = height
+			}
+			// the newest record below may belong to an abandoned branch that was never committed
+			// again; the state of the current chain it forked from lies less than one interval lower
+			if height < below-int64(treeCfg.PruneHeight) {
 				break
 			}
-			below = height
 		}
 		keep[string(hash)] = struct{}{}
 	}
